@@ -22,11 +22,14 @@ type gcase struct {
 	N     int      `json:"n"`
 	Edges [][3]int `json:"edges"` // from, to, weight
 	Src   int      `json:"src"`
+	// Prior: sources for which SPT was called on the same Topology object before (a topology is built once and
+	// asked for several trees); the tree for Src must not depend on them
+	Prior []int `json:"prior,omitempty"`
 }
 
 func (c gcase) key() string {
 	var b strings.Builder
-	fmt.Fprintf(&b, "%d/%d", c.N, c.Src)
+	fmt.Fprintf(&b, "%d/%d/%v", c.N, c.Src, c.Prior)
 	for _, e := range c.Edges {
 		fmt.Fprintf(&b, "|%d>%d:%d", e[0], e[1], e[2])
 	}
@@ -106,6 +109,9 @@ func check(c gcase, viol func(clause string, f map[string]string, detail string)
 		idx[n] = i
 	}
 	t := dijkstra.NewTopology(nodes, edges)
+	for _, q := range c.Prior {
+		t.SPT(names[q])
+	}
 	spt := t.SPT(names[c.Src])
 	if len(spt) != c.N {
 		viol("node-set", vf.F(), fmt.Sprintf("tree has %d entries for %d nodes", len(spt), c.N))
@@ -273,12 +279,17 @@ func genRandom(rng *rand.Rand) gcase {
 		}
 	}
 	rng.Shuffle(len(c.Edges), func(i, j int) { c.Edges[i], c.Edges[j] = c.Edges[j], c.Edges[i] })
+	if n > 1 && rng.IntN(2) == 0 {
+		for k := 1 + rng.IntN(2); k > 0; k-- {
+			c.Prior = append(c.Prior, rng.IntN(n))
+		}
+	}
 	return c
 }
 
 func main() {
 	vf.Main("C35", "exploration", func(r *vf.Run) {
-		r.Rule("exhaustive: every simple directed graph on 1..3 nodes with each ordered pair in {absent,0,1,2,3}, every source (thorough: also 4 nodes with {absent,0,1,3}, every source, and 5 nodes from source n0 with <=6 edges over {0,1,3} and <=8 edges over {1,2}); plus PRNG graphs with 1..40 nodes, densities from 0.5/n to 1, weight ranges up to 2^30, optional self loops, random source. Reference = Bellman-Ford. distinct_nontrivial = distinct (graph, source) cases in which some node is unreachable from the source, or some node's shortest path has >= 2 edges and is strictly shorter than the direct edge (or there is no direct edge)")
+		r.Rule("exhaustive: every simple directed graph on 1..3 nodes with each ordered pair in {absent,0,1,2,3}, every source (thorough: also 4 nodes with {absent,0,1,3}, every source, and 5 nodes from source n0 with <=6 edges over {0,1,3} and <=8 edges over {1,2}); plus PRNG graphs with 1..40 nodes, densities from 0.5/n to 1, weight ranges up to 2^30, optional self loops, random source; half of the PRNG cases and a second copy of every exhaustive 2-3 node case ask the same Topology object for the trees of other sources first. Reference = Bellman-Ford. distinct_nontrivial = distinct (graph, source) cases in which some node is unreachable from the source, or some node's shortest path has >= 2 edges and is strictly shorter than the direct edge (or there is no direct edge)")
 		r.Assume("graphs are simple (at most one edge per ordered pair), all edge endpoints and the source are listed nodes, weights are non-negative and sums stay below 2^62", "the API's mark for an unreachable node is distance -1 with an empty edge list (what newSPT initialises)")
 		mkViol := func(c gcase) func(string, map[string]string, string) {
 			return func(clause string, f map[string]string, detail string) {
@@ -314,6 +325,11 @@ func main() {
 					c := gcase{N: n, Edges: edges, Src: s}
 					res := check(c, mkViol(c))
 					record(c, res)
+					if n > 1 && n <= 3 {
+						// the same tree once more, asked for after the tree of the next node
+						c2 := gcase{N: n, Edges: edges, Src: s, Prior: []int{(s + 1) % n}}
+						record(c2, check(c2, mkViol(c2)))
+					}
 				}
 			})
 		}
